@@ -11,6 +11,7 @@ import (
 
 	"verif/mc/evgen"
 	"verif/mc/harness"
+	"verif/mc/poison"
 	"verif/mc/ref/refevent"
 	"verif/mc/ref/refjson"
 	"verif/mc/ref/refredact"
@@ -118,6 +119,7 @@ func parseUntrustedIf(cond bool, ver gmsl.IRoomVersion, in []byte) (gmsl.PDU, er
 }
 
 func check(r *harness.Run, c redCase) error {
+	poison.Redaction(c.Version) // refused redactions first: nothing they leave behind may show up in the result below
 	r.Eval()
 	ver := gmsl.MustGetRoomVersion(gmsl.RoomVersion(c.Version))
 	row := refversions.Get(c.Version)
